@@ -314,8 +314,9 @@ Print Assumptions C16_elf_any_table_scan.
 (* 20. the same code over a regular file (what _get_musl_version and _parse_elf open): seek refuses offsets from [seek_max] on,
        read refuses sizes from [read_max] on (OSError / ValueError / MemoryError / OverflowError - all handled now, D40).
        io.BytesIO is the instance with both limits 2^63; a scan that stays below the limits answers what the in-memory scan
-       answers; a PT_INTERP entry beyond them is ELFInvalid; on both media the outcome is None, a path or ELFInvalid - the
-       result type has no other constructor, so no other exception leaves .interpreter (the C11 clause for ELF input). *)
+       answers; a PT_INTERP entry beyond them is ELFInvalid.  (Third conjunct: the trichotomy of the model's result type - a
+       statement about the model only.  That the CODE raises nothing but ELFInvalid is what the streams elf / elf-file of this
+       check and the ELFFile / ELFFile.file entries of C11 test; a Gallina function cannot raise.) *)
 Theorem C16_elf_regular_file lim f e is64 big :
   interpreter f e = interpreter_disk mem_limits f e /\
   (layout (capacity e) (encoding e) = Some (is64, big) -> seek_max lim <= ssize_limit -> read_max lim <= ssize_limit ->
@@ -351,9 +352,12 @@ Theorem C16_musl_end_to_end s ph err archs : wf_spec s ->
   (contains s_musl (strip_nul (s_payload s)) = false -> musllinux_tags (Some (encode s)) err archs = []).
 Proof. apply musl_end_to_end. Qed.
 Print Assumptions C16_musl_end_to_end.
-(* 21b. the same through the regular file and the real subprocess.run (the function the correspondence run executes,
-        Run/RunPlat.v: musllinux_tags_x): a loader that cannot be run (embedded NUL: ValueError; missing path: FileNotFoundError)
-        means "no musl" - the code catches both since 020ba8a (they used to escape _musllinux.platform_tags, D41) *)
+(* 21b. the same through the regular file and subprocess.run as PlatLoader.run_loader models it (the function the correspondence run
+        executes, Run/RunPlat.v: musllinux_tags_x): a loader that cannot be run (embedded NUL: ValueError; missing path:
+        FileNotFoundError) means "no musl" - the code catches both since 020ba8a (they used to escape _musllinux.platform_tags).
+        run_loader is compared with a stand-in for subprocess.run in the streams musllinux / linux / platform-tags and with the REAL
+        subprocess.run on generated loader scripts (runs, not executable, a directory, missing, NUL) in stream musl-real-run.
+        The banner is read by parse_musl_version_l: Unicode digits, int()'s digit limit (23b). *)
 Theorem C16_musl_end_to_end_real lim le s ph archs : wf_spec s -> 4194304 <= seek_max lim ->
   first_interp (s_is64 s) (s_phdrs s) = Some ph -> ph_off (s_is64 s) ph = payload_off s -> ph_size (s_is64 s) ph = flen (s_payload s) ->
   flen (s_payload s) < read_max lim ->
@@ -363,7 +367,7 @@ Theorem C16_musl_end_to_end_real lim le s ph archs : wf_spec s -> 4194304 <= see
   (contains s_musl ld = true -> has_nul ld = false -> le_all le = false -> ~ In ld (le_existing le) ->
      musllinux_tags_x lim (Some (encode s)) le archs = []) /\
   (contains s_musl ld = true -> has_nul ld = false -> (le_all le = true \/ In ld (le_existing le)) ->
-     musllinux_tags_x lim (Some (encode s)) le archs = map (render3 s_musllinux_) (musl_struct (parse_musl_version (le_stderr le)) archs)).
+     musllinux_tags_x lim (Some (encode s)) le archs = map (render3 s_musllinux_) (musl_struct (parse_musl_version_l (le_intmax le) (le_stderr le)) archs)).
 Proof. apply musl_end_to_end_x. Qed.
 Print Assumptions C16_musl_end_to_end_real.
 (* the loader cannot be run => subprocess.run raises (which exception) and _get_musl_version answers None: no tags *)
@@ -373,27 +377,35 @@ Theorem C16_musl_loader_exceptions lim exe le archs ld : musl_loader_disk lim ex
      run_loader le ld = LFileNotFound /\ musllinux_tags_x lim exe le archs = []).
 Proof. apply musl_x_unrunnable. Qed.
 Print Assumptions C16_musl_loader_exceptions.
-(* _musllinux.platform_tags never raises: for ANY executable bytes, file limits, loader list and loader output the result is either
-   empty or exactly the enumeration musllinux_<M>_<k>_<arch>, k = m .. 0 per architecture, of one version *)
+(* the shape of every result of the MODEL: for any executable bytes, file limits, loader list and loader output, musllinux_tags_x is
+   either empty or exactly the enumeration musllinux_<M>_<k>_<arch>, k = m .. 0 per architecture, of one version.  (The name is kept;
+   a Gallina function cannot raise, so this theorem does NOT by itself say that the code never raises: that claim rests on the
+   always-generated law law.p.noraise and on the model-compared streams, where an escaping exception shows as !EXC:... against a
+   list; the 5000-digit banner that used to escape as ValueError is generated there since 71d4b23.) *)
 Theorem C16_musl_never_raises lim exe le archs :
   musllinux_tags_x lim exe le archs = [] \/
   exists M m, musllinux_tags_x lim exe le archs = map (render3 s_musllinux_) (musl_struct (Some (M, m)) archs).
 Proof. apply musl_x_total. Qed.
 Print Assumptions C16_musl_never_raises.
-(* 21c. when the loader runs and the file stays below the limits, the real pipeline is the oracle model of 8. and 12. *)
+(* 21c. when the loader runs, the file stays below the limits and the version strings are ASCII within int()'s digit limit, the
+        pipeline the run executes is the oracle model of 8. and 12. (third conjunct: definitional) *)
 Theorem C16_musl_agrees_with_oracle is32 plat e lim le archs :
   musl_loader_disk lim (m_exe e) = musl_loader (m_exe e) ->
   (forall ld, musl_loader (m_exe e) = Some ld -> run_loader le ld = LRan (le_stderr le)) ->
+  parse_musl_version_l (le_intmax le) (le_stderr le) = parse_musl_version (le_stderr le) ->
+  get_glibc_version_l (le_intmax le) (m_confstr e) (m_ctypes e) = get_glibc_version (m_confstr e) (m_ctypes e) ->
   musllinux_tags_x lim (m_exe e) le archs = musllinux_tags (m_exe e) (le_stderr le) archs /\
   linux_platforms_x is32 plat e lim le = linux_platforms is32 plat e (le_stderr le) /\
   musl_loader_disk mem_limits (m_exe e) = musl_loader (m_exe e).
-Proof. intros A R. split; [now apply musl_x_agrees|]. split; [now apply linux_x_agrees | apply musl_loader_mem]. Qed.
+Proof. intros A R P G. split; [now apply musl_x_agrees|]. split; [now apply linux_x_agrees | apply musl_loader_mem]. Qed.
 Print Assumptions C16_musl_agrees_with_oracle.
 
 (* ------------------------------------------------------------------ libc version strings, completely *)
-(* 22. _parse_glibc_version accepts exactly  <digits> "." <digits> <rest>  (rest not starting with a digit) and returns the decimal
-       values (leading zeros allowed); _parse_musl_version accepts exactly the outputs whose first non-blank stripped line starts
-       with "musl" and whose second is "Version " + such a version.  16./17. are instances. *)
+(* 22. the parsers of PlatModel (no digit limit - finding D10 - and ASCII digits): parse_glibc_version accepts exactly
+       <digits> "." <digits> <rest>  (rest not starting with a digit) and returns the decimal values (leading zeros allowed);
+       parse_musl_version accepts exactly the outputs whose first non-blank stripped line starts with "musl" and whose second is
+       "Version " + such a version.  16./17. are instances.  These are the code's parsers only inside int()'s digit limit and, for
+       musl, on ASCII digits; what the code does in general (and what the correspondence run executes) is 22b. *)
 Theorem C16_glibc_string_iff s M m :
   (parse_glibc_version s = Some (M, m) <-> version_shape s M m) /\
   (parse_glibc_version s = None <-> ~ exists M m, version_shape s M m).
@@ -404,6 +416,21 @@ Theorem C16_musl_string_iff output M m :
   exists l0 l1 more v, nonblank_lines output = l0 :: l1 :: more /\ firstn 4 l0 = s_musl /\ l1 = s_Version_ ++ v /\ version_shape v M m.
 Proof. apply parse_musl_iff. Qed.
 Print Assumptions C16_musl_string_iff.
+
+(* 22b. the parsers as the code has them now (PlatLoader: parse_glibc_version_l / parse_musl_version_l, run with lim = 4300 =
+        sys.get_int_max_str_digits()): a digit run longer than the limit makes the string unreadable (int() raises ValueError, caught
+        since 71d4b23); the musl regex class backslash-d and int() take every Unicode decimal digit, the glibc class [0-9] only ASCII.
+        A string no longer than the limit is read as in 22. *)
+Theorem C16_version_strings_exact lim s output M m :
+  (parse_glibc_version_l lim s = Some (M, m) <-> version_shape_l is_digit lim s M m) /\
+  ((length s <= lim)%nat -> parse_glibc_version_l lim s = parse_glibc_version s) /\
+  (parse_glibc_version s = Some (M, m) -> parse_glibc_version_l lim s = None \/ parse_glibc_version_l lim s = Some (M, m)) /\
+  (parse_musl_version_l lim output = Some (M, m) <->
+   exists l0 l1 more v, nonblank_lines output = l0 :: l1 :: more /\ firstn 4 l0 = s_musl /\ l1 = s_Version_ ++ v /\ version_shape_l is_ud lim v M m).
+Proof.
+  split; [apply parse_glibc_l_spec|]. split; [apply parse_glibc_l_short|]. split; [apply parse_glibc_l_too_long | apply parse_musl_l_iff].
+Qed.
+Print Assumptions C16_version_strings_exact.
 
 (* ------------------------------------------------------------------ the text of the statement vs the code *)
 (* 23. where the code departs from the text (each also a law on the real code, harness/props/c16.py, and a recorded finding):
@@ -438,27 +465,37 @@ Proof. exact repeated_arch_repeats. Qed.
 Print Assumptions C16_repeated_arch_repeats.
 
 (* ------------------------------------------------------------------ memoised probes across calls (also C20) *)
-(* 24. _get_musl_version(executable) is memoised per executable path: every call answers what the FIRST call with that path probed;
-       if a path always gets the same uncached answer memoisation is invisible; different paths do not share an answer; a None
-       answer (also the one of a loader that could not be run) is memoised like any other.  The battery step (Run/RunPlat.v p.probes: run_steps) threads this keyed memo and the one-cell glibc memo
-       of 18. through _manylinux.platform_tags / _musllinux.platform_tags: with empty memos a step is the uncached answer, and the
-       glibc cell is consulted only when the ABI check passes. *)
+(* 24. the memo of _get_musl_version(executable) without a size bound (run_keyed): every call answers what the FIRST call with that
+       path probed; if a path always gets the same uncached answer memoisation is invisible; different paths do not share an answer;
+       a None answer (also the one of a loader that could not be run) is stored like any other (definitional).  The code's memo is
+       functools.lru_cache with 128 entries: 24b ties these statements to what the run executes, for at most 128 paths in play. *)
 Theorem C16_keyed_probe_cache l :
   (forall i k now, nth_error l i = Some (k, now) ->
      exists v, nth_error (run_keyed [] l) i = Some v /\ first_for k (firstn (S i) l) = Some v) /\
   ((forall i j k a b, nth_error l i = Some (k, a) -> nth_error l j = Some (k, b) -> a = b) -> run_keyed [] l = map snd l) /\
   (forall k1 k2 a b, k1 <> k2 -> run_keyed [] [(k1, a); (k2, b); (k1, b)] = [a; b; a]) /\
-  (forall c k, cache_get k c = None -> cached_musl c k None = ((k, None) :: c, None)).
+  (forall c k, cache_get k c = None -> cached_unb c k None = ((k, None) :: c, None) /\ cached_musl c k None = (firstn cache_cap ((k, None) :: c), None)).
 Proof.
   split; [intros; eapply keyed_first_probe; eauto|]. split; [apply keyed_transparent|]. split; [apply keyed_not_shared | apply none_is_cached].
 Qed.
 Print Assumptions C16_keyed_probe_cache.
+(* 24b. the battery the correspondence run executes (Run/RunPlat.v p.probes: run_steps): its musl column IS the bounded memo run_lru
+        (lru_cache: a hit refreshes the entry, a miss evicts the least recently used beyond 128 entries) over the steps' (executable
+        path, uncached answer) pairs; with at most 128 different paths in play run_lru answers like run_keyed, so 24. is about what is
+        run; with more, the first answer can be forgotten (non-vacuity check below: 129 other paths in between). *)
+Theorem C16_probe_cache_is_run archs sts s l K :
+  map snd (run_steps archs s sts) = map (fun v => musl_render v archs) (run_lru (ps_musl s) (map probe_of sts)) /\
+  ((length K <= cache_cap)%nat -> incl (map fst l) K -> run_lru [] l = run_keyed [] l).
+Proof. split; [apply run_steps_musl_column | apply lru_is_keyed]. Qed.
+Print Assumptions C16_probe_cache_is_run.
+(* 24c. one step: from empty memos it is the uncached answer; the glibc cell (the one-cell memo of 18.) is consulted only when the ABI
+        check passes *)
 Theorem C16_probe_steps archs s st :
   snd (step_probes archs pstate0 st) =
-    (manylinux_tags (st_menv st) archs, musllinux_tags_x (st_lim st) (m_exe (st_menv st)) (st_le st) archs) /\
+    (manylinux_tags_l (le_intmax (st_le st)) (st_menv st) archs, musllinux_tags_x (st_lim st) (m_exe (st_menv st)) (st_le st) archs) /\
   ps_glibc (fst (step_probes archs s st)) =
     (if have_compatible_abi (m_exe (st_menv st)) archs
-     then fst (cached_probe (ps_glibc s) (get_glibc_version (m_confstr (st_menv st)) (m_ctypes (st_menv st))))
+     then fst (cached_probe (ps_glibc s) (get_glibc_version_l (le_intmax (st_le st)) (m_confstr (st_menv st)) (m_ctypes (st_menv st))))
      else ps_glibc s).
 Proof. split; [apply step_fresh | apply step_glibc_cell]. Qed.
 Print Assumptions C16_probe_steps.
@@ -471,8 +508,8 @@ Definition ex_banner : list N := s_musl ++ [32; 108; 105; 98; 99; 10] ++ s_Versi
 Definition res_eqb (x y : list (list N)) : bool := Nat.eqb (length x) (length y) && forallb (fun p => streq (fst p) (snd p)) (combine x y).
 Definition C16_round2_check : bool :=
   let lim := {| seek_max := 281474976710656; read_max := 281474976710656 |} in
-  let le_all_ok := {| le_all := true; le_existing := []; le_stderr := ex_banner |} in
-  let le_none := {| le_all := false; le_existing := []; le_stderr := ex_banner |} in
+  let le_all_ok := {| le_all := true; le_existing := []; le_stderr := ex_banner; le_intmax := default_intmax |} in
+  let le_none := {| le_all := false; le_existing := []; le_stderr := ex_banner; le_intmax := default_intmax |} in
   (* the good image: three tags musllinux_1_2 .. 1_0; the loader missing, or a NUL inside the path: no tags *)
   res_eqb (musllinux_tags_x lim (Some (encode ex_spec)) le_all_ok [s_x86_64])
           (map (render3 s_musllinux_) [(1, 2, s_x86_64); (1, 1, s_x86_64); (1, 0, s_x86_64)]%nat) &&
@@ -484,6 +521,42 @@ Definition C16_round2_check : bool :=
   match run_keyed [] [([65], Some (1, 2)%nat); ([66], None); ([65], Some (1, 5)%nat)] with
   | [Some (1, 2)%nat; None; Some (1, 2)%nat] => true | _ => false end &&
   match parse_glibc_version [48; 50; 46; 48; 49; 55; 45; 120] with Some (2, 17)%nat => true | _ => false end &&
-  match parse_glibc_version [50; 46] with None => true | _ => false end.
+  match parse_glibc_version [50; 46] with None => true | _ => false end &&
+  (* 20.: a PT_INTERP entry whose size the file cannot serve is ELFInvalid on disk and a path in memory *)
+  match interpreter_disk {| seek_max := 281474976710656; read_max := 16 |} (encode ex_spec) (elf_of ex_spec), interpreter (encode ex_spec) (elf_of ex_spec) with
+  | IInvalid, ISome _ => true | _, _ => false end &&
+  (* 21c: for ex_spec the hypotheses hold and both sides agree *)
+  res_eqb (musllinux_tags_x mem_limits (Some (encode ex_spec)) le_all_ok [s_x86_64]) (musllinux_tags (Some (encode ex_spec)) ex_banner [s_x86_64]) &&
+  (* 22b: 5000 digits are unreadable for the code's parsers (the unlimited ones read them: C16_glibc_string), 4300 are read; ARABIC-INDIC digits count for musl only *)
+  match parse_glibc_version_l default_intmax (repeat 57 5000 ++ [46; 49]) with None => true | _ => false end &&
+  match parse_glibc_version_l default_intmax (repeat 48 4299 ++ [50; 46; 49]) with Some (2, 1)%nat => true | _ => false end &&
+  match parse_musl_version_l default_intmax (s_musl ++ [10] ++ s_Version_ ++ [1633; 46; 1634; 10]) with Some (1, 2)%nat => true | _ => false end &&
+  match parse_musl_version (s_musl ++ [10] ++ s_Version_ ++ [1633; 46; 1634; 10]) with None => true | _ => false end &&
+  match parse_glibc_version_l default_intmax [1633; 46; 1634] with None => true | _ => false end &&
+  (* 24b: path [0] probed first (1.2); 129 other paths; path [0] again with 1.5: the bounded memo has forgotten, the unbounded has not *)
+  (let others := map (fun n => ([N.of_nat (S n)], None)) (seq 0 129) in
+   let l := ([0], Some (1, 2)%nat) :: others ++ [([0], Some (1, 5)%nat)] in
+   match last (run_lru [] l) None, last (run_keyed [] l) None with Some (1, 5)%nat, Some (1, 2)%nat => true | _, _ => false end) &&
+  (* 24c: a fresh step on ex_spec *)
+  res_eqb (snd (snd (step_probes [s_x86_64] pstate0 {| st_key := [65]; st_menv := {| m_confstr := CNone; m_ctypes := TNoModule; m_exe := Some (encode ex_spec); m_policy := None |};
+                                                        st_lim := mem_limits; st_le := le_all_ok |})))
+          (map (render3 s_musllinux_) [(1, 2, s_x86_64); (1, 1, s_x86_64); (1, 0, s_x86_64)]%nat).
 Example C16_round2_nonvacuous : C16_round2_check = true.
 Proof. vm_compute. reflexivity. Qed.
+
+(* non-vacuity of 19.: a table with stride 64 (8 bytes of padding behind each 56-byte entry) at offset 58 of a hand-laid 64-bit LSB
+   image satisfies table_at, and the interpreter is the one of its PT_INTERP entry *)
+Definition pad8 : list N := repeat 170 8.
+Definition ex_strided : list N :=
+  magic ++ [2; 1] ++ repeat 0 10 ++ pack false (e_sizes true) [3; 62; 1; 0; 58; 0; 0; 64; 64; 2] ++
+  pack false (p_sizes true) [1; 5; 0; 0; 0; 200; 200; 4096] ++ pad8 ++ pack false (p_sizes true) [3; 4; 186; 0; 0; 5; 5; 1] ++ pad8 ++ [109; 117; 115; 108; 0].
+Example C16_any_table_witness :
+  table_at ex_strided true false 58 64 0 [[1; 5; 0; 0; 0; 200; 200; 4096]; [3; 4; 186; 0; 0; 5; 5; 1]] /\
+  (match parse_header ex_strided with
+   | Ok e => (e_phentsize e =? 64) && (e_phoff e =? 58) && (e_phnum e =? 2) && match interpreter ex_strided e with ISome p => bytes_eqb p [109; 117; 115; 108] | _ => false end
+   | Invalid => false end) = true.
+Proof.
+  split; [|vm_compute; reflexivity]. unfold table_at. cbn [table_within].
+  split; [vm_compute; reflexivity|]. split; [vm_compute; repeat split|]. split; [vm_compute; reflexivity|]. intros _.
+  split; [vm_compute; reflexivity|]. split; [vm_compute; repeat split|]. split; [vm_compute; reflexivity|]. intros H. exfalso. apply H. reflexivity.
+Qed.
